@@ -1,0 +1,212 @@
+//go:build verif
+
+// Accessors for the external verification harness (/verif), components `wire` and `oob`
+// (properties C09, C10 session half, C19).  Compiled only with -tags verif; add-only, no
+// behaviour of the package changes.
+package kcp
+
+import (
+	"io"
+	"time"
+)
+
+// VerifSOInfo reports the header arithmetic of a session and the core's MTU.
+func VerifSOInfo(s *UDPSession) (headerSize int, coreMtu, mss uint32, fec bool) {
+	s.mu.Lock()
+	defer s.mu.Unlock()
+	return s.headerSize, s.kcp.mtu, s.kcp.mss, s.fecEncoder != nil
+}
+
+// VerifSOStat reports queue levels (under the session lock).
+func VerifSOStat(s *UDPSession) (waitsnd, sndwnd, peeksize int) {
+	s.mu.Lock()
+	defer s.mu.Unlock()
+	return s.kcp.WaitSnd(), int(s.kcp.snd_wnd), s.kcp.PeekSize()
+}
+
+// VerifSOTapOutput makes every call of the core's output callback visible to the harness
+// (buffer and size argument) before the session's own callback runs.
+func VerifSOTapOutput(s *UDPSession, tap func(buf []byte, size int)) {
+	s.mu.Lock()
+	defer s.mu.Unlock()
+	orig := s.kcp.output
+	s.kcp.output = func(buf []byte, size int) {
+		tap(buf, size)
+		orig(buf, size)
+	}
+}
+
+// VerifSOUpdate does what UDPSession.update does, minus re-scheduling itself.
+func VerifSOUpdate(s *UDPSession) {
+	select {
+	case <-s.die:
+	default:
+		s.mu.Lock()
+		s.kcp.flush(IKCP_FLUSH_FULL)
+		waitsnd := s.kcp.WaitSnd()
+		if waitsnd < int(s.kcp.snd_wnd) {
+			s.notifyWriteEvent()
+		}
+		s.mu.Unlock()
+	}
+}
+
+// VerifSOPacketInput feeds one datagram into the session's receive path in the caller's
+// goroutine (so that the harness can recover a panic of the real code).
+func VerifSOPacketInput(s *UDPSession, data []byte) { s.packetInput(data) }
+
+// VerifSOAbort ends the session's goroutines without taking the session lock (used after the
+// harness has recovered a panic that left the lock held).
+func VerifSOAbort(s *UDPSession) {
+	s.dieOnce.Do(func() { close(s.die) })
+}
+
+// VerifSOPending is the number of requests waiting for postProcess.
+func VerifSOPending(s *UDPSession) int { return len(s.chPostProcessing) }
+
+// VerifSOEncoder reports the FEC encoder's counters.
+func VerifSOEncoder(s *UDPSession) (next, paws uint32, shardCount, maxSize int, ok bool) {
+	if s.fecEncoder == nil {
+		return
+	}
+	e := s.fecEncoder
+	return e.next, e.paws, e.shardCount, e.maxSize, true
+}
+
+// VerifSOSetEncoderNext positions the FEC encoder's id counter (to start a history close to
+// the wrap point).  Only meaningful at a group boundary.
+func VerifSOSetEncoderNext(s *UDPSession, next uint32) {
+	if s.fecEncoder != nil {
+		s.fecEncoder.next = next
+	}
+}
+
+// VerifSOSetRefTime re-bases the millisecond clock of the package (currentMs).
+func VerifSOSetRefTime(t time.Time) { refTime = t }
+
+// VerifSOConstants reports the constants the extractor also reads from the source.
+func VerifSOConstants() map[string]int {
+	return map[string]int{
+		"IKCP_OVERHEAD": IKCP_OVERHEAD, "IKCP_MTU_DEF": IKCP_MTU_DEF, "mtuLimit": mtuLimit,
+		"nonceSize": nonceSize, "crcSize": crcSize, "cryptHeaderSize": cryptHeaderSize,
+		"fecHeaderSize": fecHeaderSize, "fecHeaderSizePlus2": fecHeaderSizePlus2,
+		"typeData": typeData, "typeParity": typeParity, "typeOOB": typeOOB, "convSize": convSize,
+		"maxFECEncodeLatency": maxFECEncodeLatency, "reseedInterval": reseedInterval,
+	}
+}
+
+// VerifSOEntropyAES exposes the AES nonce generator's state; ok is false for another source.
+func VerifSOEntropyAES(r io.Reader) (seed [16]byte, count uint64, ok bool) {
+	g, isAES := r.(*rngAES)
+	if !isAES {
+		return
+	}
+	g.mutex.Lock()
+	defer g.mutex.Unlock()
+	return g.seed, g.count, true
+}
+
+// VerifSOEntropyAESBlock applies the generator's current block cipher to one block.
+func VerifSOEntropyAESBlock(r io.Reader, in [16]byte) (out [16]byte) {
+	g := r.(*rngAES)
+	g.mutex.Lock()
+	defer g.mutex.Unlock()
+	g.block.Encrypt(out[:], in[:])
+	return
+}
+
+// VerifSOEntropyAESSetCount positions the generator's draw counter (to reach re-keying).
+func VerifSOEntropyAESSetCount(r io.Reader, c uint64) {
+	g := r.(*rngAES)
+	g.mutex.Lock()
+	g.count = c
+	g.mutex.Unlock()
+}
+
+// VerifSORxSnapshot is a canonical digest of everything the receive path may change in a
+// session: core counters and queue levels, FEC decoder (parameters, shard sets, auto-tune
+// ring), bufptr, pending read/write tokens.  Used to check that an out-of-band datagram
+// leaves all of it alone.
+func VerifSORxSnapshot(s *UDPSession) string {
+	s.mu.Lock()
+	defer s.mu.Unlock()
+	k := s.kcp
+	out := fmtSprint("core", k.snd_una, k.snd_nxt, k.rcv_nxt, k.rmt_wnd, k.cwnd, k.incr, k.ssthresh, k.probe,
+		k.rx_srtt, k.rx_rttvar, k.rx_rto, k.snd_queue.Len(), k.snd_buf.Len(), k.rcv_queue.Len(), k.rcv_buf.Len(),
+		len(k.acklist), k.state, "bufptr", len(s.bufptr), "tok", len(s.chReadEvent), len(s.chWriteEvent))
+	if d := s.fecDecoder; d != nil {
+		sets := 0
+		shards := 0
+		for _, h := range d.shardSet {
+			sets++
+			shards += h.Len()
+		}
+		out += fmtSprint(" dec", d.dataShards, d.parityShards, d.paws, d.newestShardId, d.shouldTune, sets, shards,
+			d.autoTune.head, d.autoTune.tail, d.autoTune.count)
+		var h uint64 = 1469598103934665603
+		for i := 0; i < d.autoTune.count; i++ {
+			p := d.autoTune.pulses[(d.autoTune.head+i)%maxAutoTuneSamples]
+			b := uint64(p.seq) << 1
+			if p.bit {
+				b |= 1
+			}
+			h = (h ^ b) * 1099511628211
+		}
+		out += fmtSprint(" tune", h)
+	}
+	return out
+}
+
+func fmtSprint(a ...any) string {
+	s := ""
+	for i, x := range a {
+		if i > 0 {
+			s += " "
+		}
+		s += verifItoa(x)
+	}
+	return s
+}
+
+func verifItoa(x any) string {
+	switch v := x.(type) {
+	case string:
+		return v
+	case bool:
+		if v {
+			return "t"
+		}
+		return "f"
+	case int:
+		return itoa64(int64(v))
+	case int32:
+		return itoa64(int64(v))
+	case uint32:
+		return itoa64(int64(v))
+	case uint64:
+		return itoa64(int64(v>>1)) + "." + itoa64(int64(v&1))
+	}
+	return "?"
+}
+
+func itoa64(v int64) string {
+	if v == 0 {
+		return "0"
+	}
+	neg := v < 0
+	if neg {
+		v = -v
+	}
+	var b [24]byte
+	i := len(b)
+	for v > 0 {
+		i--
+		b[i] = byte('0' + v%10)
+		v /= 10
+	}
+	if neg {
+		i--
+		b[i] = '-'
+	}
+	return string(b[i:])
+}
